@@ -15,7 +15,9 @@ impl Utf8Accum {
         // Plain and stupid utf-8 validation
         // Bytes are supposed to be human input so it's okay to be not blazing fast
 
-        if byte >= 0xF8 {
+        if byte >= 0xF5 {
+            // 0xF5..=0xFF never appear in well-formed utf-8
+            self.expected = 0;
             return None;
         } else if byte >= 0xF0 {
             // this is first octet of 4-byte value
@@ -27,13 +29,29 @@ impl Utf8Accum {
             self.buffer[0] = byte;
             self.partial = 1;
             self.expected = 2;
-        } else if byte >= 0xC0 {
+        } else if byte >= 0xC2 {
             // this is first octet of 2-byte value
             self.buffer[0] = byte;
             self.partial = 1;
             self.expected = 1;
+        } else if byte >= 0xC0 {
+            // 0xC0 and 0xC1 can only start an overlong encoding
+            self.expected = 0;
         } else if byte >= 0x80 {
             if self.expected > 0 {
+                if self.partial == 1 {
+                    // second octet is restricted for some first octets, otherwise
+                    // overlong encodings, surrogates and values above U+10FFFF get through
+                    let first = self.buffer[0];
+                    if (first == 0xE0 && byte < 0xA0)
+                        || (first == 0xED && byte >= 0xA0)
+                        || (first == 0xF0 && byte < 0x90)
+                        || (first == 0xF4 && byte >= 0x90)
+                    {
+                        self.expected = 0;
+                        return None;
+                    }
+                }
                 // this is one of other octets of multi-byte value
                 self.buffer[self.partial as usize] = byte;
                 self.partial += 1;
